@@ -2,7 +2,10 @@
  *
  * stdin: a sequence of cases
  *   case <name>
- *   xmlbackend <0|1>                 HWLOC_LIBXML_EXPORT/IMPORT for the diff XML round trip
+ *   xmlbackend <export 0|1> [<import 0|1>]  HWLOC_LIBXML_EXPORT / HWLOC_LIBXML_IMPORT for the diff XML round trip
+ *                                    (hwloc caches the choice on first use: every case is its own process)
+ *   xmlhand <n>                      followed by n "D ..." lines: XML round trip (buffer and file) of that list
+ *                                    strings may be written @<len>[:e] = generated string of that length (e: with &<>"')
  *   topo synthetic <description> | topo xml <path>
  *   a <edit...>                      edit applied to A (before B is duplicated from it)
  *   b <edit...>                      edit applied to B = dup(A)
@@ -39,6 +42,14 @@ static void hx(const char *s)
 static char *unhx(const char *s)
 {
   size_t n, i; char *r;
+  if (s && s[0] == '@') {
+    static const char plain[] = "abcdefghijklmnopqrstuvwxyz0123456789 _-";
+    static const char esc[] = "ab&cd<ef>gh\"ij'kl mn";
+    const char *pat = strchr(s, ':') ? esc : plain; size_t pl = strchr(s, ':') ? sizeof(esc) - 1 : sizeof(plain) - 1;
+    n = strtoul(s + 1, NULL, 10); r = malloc(n + 1);
+    for (i = 0; i < n; i++) r[i] = pat[i % pl];
+    r[n] = 0; return r;
+  }
   if (!s || s[0] != 's') return NULL;
   s++; n = strlen(s) / 2; r = malloc(n + 1);
   for (i = 0; i < n; i++) { unsigned v; sscanf(s + 2 * i, "%2x", &v); r[i] = (char)v; }
@@ -351,14 +362,51 @@ static int do_edit(hwloc_topology_t t, char *line)
 }
 
 /* ---- one case ---- */
+
+
 static hwloc_topology_t A, B;
 
 static void need_B(void) { if (!B && A) hwloc_topology_dup(&B, A); }
 
+/* export/load of a list as XML: buffer and file variants, with a refname */
+static void xml_roundtrip(hwloc_topology_diff_t diff)
+{
+  static const char *refname = "ref<&\"1>.xml";
+  hwloc_topology_diff_t xd = NULL; char *buf = NULL, *ref = NULL; int len = 0, r;
+  char path[] = "/tmp/hwv-diff-XXXXXX"; int fd;
+  r = hwloc_topology_diff_export_xmlbuffer(diff, refname, &buf, &len);
+  if (r < 0) { printf("xml export=-1\n"); return; }
+  /* strnlen: a cut document may not be terminated inside the reported length */
+  printf("xml export=0 len=%d strlen=%lu", len, (unsigned long)strnlen(buf, (size_t)(len > 0 ? len : 0)) + 1);
+  r = hwloc_topology_diff_load_xmlbuffer(buf, len, &xd, &ref);
+  printf(" load=%d same=%d n=%u ref=", r, r < 0 ? 0 : diff_same(diff, xd), r < 0 ? 0 : diff_len(xd)); hx(r < 0 ? NULL : ref);
+  free(ref); ref = NULL; hwloc_topology_diff_destroy(xd); xd = NULL;
+  fd = mkstemp(path);
+  if (fd >= 0) {
+    FILE *f; long fsize = -1; char *fbuf = NULL; int fsame = 0;
+    close(fd);
+    r = hwloc_topology_diff_export_xml(diff, refname, path);
+    printf(" fexport=%d", r);
+    f = fopen(path, "rb");
+    if (f) {
+      fseek(f, 0, SEEK_END); fsize = ftell(f); fseek(f, 0, SEEK_SET);
+      fbuf = malloc((size_t)fsize + 1);
+      if (fread(fbuf, 1, (size_t)fsize, f) == (size_t)fsize) fsame = (fsize == (long)len - 1) && !memcmp(fbuf, buf, (size_t)fsize);
+      fclose(f); free(fbuf);
+    }
+    printf(" fsize=%ld fsame=%d", fsize, fsame);
+    r = hwloc_topology_diff_load_xml(path, &xd, &ref);
+    printf(" fload=%d fsamelist=%d fref=", r, r < 0 ? 0 : diff_same(diff, xd)); hx(r < 0 ? NULL : ref);
+    free(ref); hwloc_topology_diff_destroy(xd);
+    unlink(path);
+  }
+  putchar('\n');
+  hwloc_free_xmlbuffer(A, buf);
+}
+
 static void do_build(void)
 {
-  hwloc_topology_diff_t diff = NULL, d2 = NULL, xd = NULL; hwloc_topology_t P = NULL; int rc, r2; unsigned n;
-  char *buf = NULL, *ref = NULL; int len = 0;
+  hwloc_topology_diff_t diff = NULL, d2 = NULL; hwloc_topology_t P = NULL; int rc, r2;
   need_B();
   dump_full("A", A); dump_full("B", B);
   dump_state("A", A); dump_state("B", B);
@@ -376,15 +424,7 @@ static void do_build(void)
     r2 = hwloc_topology_diff_apply(P, diff, HWLOC_TOPOLOGY_DIFF_APPLY_REVERSE);
     printf("unapply %d\n", r2); dump_state("P2", P); fflush(stdout);
     hwloc_topology_destroy(P);
-    /* XML round trip of the list with a refname */
-    r2 = hwloc_topology_diff_export_xmlbuffer(diff, "ref<&\"1>.xml", &buf, &len);
-    if (r2 < 0) printf("xml export -1\n");
-    else {
-      r2 = hwloc_topology_diff_load_xmlbuffer(buf, len, &xd, &ref);
-      if (r2 < 0) printf("xml load -1\n");
-      else { n = diff_len(xd); printf("xml ok same=%d n=%u ref=", diff_same(diff, xd), n); hx(ref); putchar('\n'); }
-      hwloc_free_xmlbuffer(A, buf); free(ref); hwloc_topology_diff_destroy(xd);
-    }
+    xml_roundtrip(diff);
     fflush(stdout);
   }
   hwloc_topology_diff_destroy(diff);
@@ -412,7 +452,25 @@ static int run_case(FILE *in)
     size_t n = strlen(line);
     while (n && (line[n - 1] == '\n' || line[n - 1] == '\r')) line[--n] = 0;
     if (!strcmp(line, "end")) break;
-    if (!strncmp(line, "xmlbackend ", 11)) { setenv("HWLOC_LIBXML_EXPORT", line + 11, 1); setenv("HWLOC_LIBXML_IMPORT", line + 11, 1); }
+    if (!strncmp(line, "xmlbackend ", 11)) {
+      char e[8] = "1", im[8] = ""; sscanf(line + 11, "%7s %7s", e, im);
+      setenv("HWLOC_LIBXML_EXPORT", e, 1); setenv("HWLOC_LIBXML_IMPORT", im[0] ? im : e, 1);
+    }
+    else if (!strncmp(line, "xmlhand ", 8)) {
+      unsigned cnt = 0, k; hwloc_topology_diff_t first = NULL, last = NULL, e2;
+      sscanf(line + 8, "%u", &cnt);
+      for (k = 0; k < cnt; k++) {
+        if (!fgets(line, sizeof line, in)) break;
+        e2 = parse_entry(line);
+        if (!e2) { printf("badentry %s", line); continue; }
+        if (first) last->generic.next = e2; else first = e2;
+        last = e2; e2->generic.next = NULL;
+      }
+      printf("xmlhand %u\n", cnt);
+      fflush(stdout);
+      xml_roundtrip(first);
+      hwloc_topology_diff_destroy(first);
+    }
     else if (!strncmp(line, "topo ", 5)) {
       hwloc_topology_init(&A);
       hwloc_topology_set_all_types_filter(A, HWLOC_TYPE_FILTER_KEEP_ALL);
